@@ -20,12 +20,35 @@ func markersStr(ms []lalr.StateMarker) string {
 	return sx.List(parts...)
 }
 
+// wideCFG: many similar alternatives over many terminals, so that the minimizer works with dozens of
+// partitions and symbols (N0: V1 | V2 | W0 | ... ; Vi: two terminals; Wi: ti 'c').
+func wideCFG(rng *rand.Rand) *cfg {
+	k := 20 + rng.Intn(50)
+	g := &cfg{nterms: k + 6, nnonterms: k + 3}
+	n0 := g.nterms
+	for j := 1; j <= k+2; j++ {
+		g.rules = append(g.rules, cfgRule{lhs: n0, rhs: []int{n0 + j}})
+	}
+	g.rules = append(g.rules, cfgRule{lhs: n0 + 1, rhs: []int{1, 2}}, cfgRule{lhs: n0 + 2, rhs: []int{3, 4}})
+	for j := 0; j < k; j++ {
+		g.rules = append(g.rules, cfgRule{lhs: n0 + 3 + j, rhs: []int{6 + j, 5}})
+	}
+	for e := rng.Intn(3); e > 0; e-- {
+		g.rules = append(g.rules, cfgRule{lhs: n0 + 1 + rng.Intn(k+2), rhs: []int{1 + rng.Intn(g.nterms-1), 1 + rng.Intn(g.nterms-1)}})
+	}
+	g.inputs = []cfgInput{{nt: n0, eoi: true}}
+	return g
+}
+
 func c06Random(rng *rand.Rand, n int, _ []string) {
 	merged := 0
 	for i := 0; i < n; i++ {
 		k := defaultKnobs
 		k.maxRules = 4
 		g := genCFG(rng, k)
+		if i%6 == 5 {
+			g = wideCFG(rng)
+		}
 		// duplicate some rules' shapes so that states become mergeable
 		if rng.Intn(2) == 0 && len(g.rules) > 0 {
 			r := g.rules[rng.Intn(len(g.rules))]
